@@ -129,6 +129,7 @@ ModelVerdict(r) ==
     ELSE IF s.fields # m.fields THEN "pyobj.model.fields"
     ELSE IF s.consts # m.consts THEN "pyobj.model.constants"
     ELSE IF s.inner # m.inner THEN "pyobj.model.inner"
+    ELSE IF s.doc # m.doc THEN "pyobj.model.doc"
     ELSE IF r.eq # 1 THEN "pyobj.model.eq"
     ELSE IF r.back # 1 THEN "pyobj.model.get_class"
     ELSE "ok"
